@@ -13,7 +13,7 @@ import (
 )
 
 func init() {
-	register("C20", "Decides the TCP method policy structurally: (R20.1) the decision table of performTCPFallback over the method constants: syn calls only the SYN implementation, sack only the SACK implementation and returns its results unchanged, prefer_sack calls SACK and then SYN exactly when errors.As finds a *sack.NotSupportedError, returning every other failure wrapped with %w, unknown methods are an error; (R20.2) the census of sites that create a sack.NotSupportedError equals the reviewed set (dial failure, platform cannot hold a second socket, handshake without SACK-permitted, ACK without SACK blocks), keyed by function and wrapped cause, so that wrapping a filter/send/read failure into it (turning a fatal failure into a silent fallback) is reported; (R20.3) along every call path from those sites up to the selector each wrapping preserves the class (errors.As finds it at any depth); (R20.4) no connection-opening call (Dialer.DialContext, net.Dial on a non-UDP network, dialSackTCP) is reachable from the SYN traceroute in the module call graph, with the SACK path as positive control; (R20.5) every method the selector routes to SACK is rewritten to SYN by runE2eProbeOnce on every path before the per-run function is called. Whether real targets produce those situations needs a network and is not decided. The census is keyed by creating function and kind of cause with the reviewed number of sites, not by message text. (R20.6) The scan for the SACK-permitted option is not left early on a path that ends in the 'unsupported' verdict. (R20.7) The receive-path verdict is raised only for a plain ACK (SYN, FIN, RST clear) on the probed flow. A verdict whose chain carries a retryable wrapper is reported (the engines would skip it). E2e probes run with MinTTL = MaxTTL = the request's MaxTTL. Shares R10.7 (no return between a poll and the classification of its result): the capability verdict of the last poll reaches the selector.", runC20)
+	register("C20", "Decides the TCP method policy structurally: (R20.1) the decision table of performTCPFallback over the method constants: syn calls only the SYN implementation, sack only the SACK implementation and returns its results unchanged, prefer_sack calls SACK and then SYN exactly when errors.As finds a *sack.NotSupportedError, returning every other failure wrapped with %w, unknown methods are an error; (R20.2) the census of sites that create a sack.NotSupportedError equals the reviewed set (dial failure, platform cannot hold a second socket, handshake without SACK-permitted, ACK without SACK blocks), keyed by function and wrapped cause, so that wrapping a filter/send/read failure into it (turning a fatal failure into a silent fallback) is reported; (R20.3) along every call path from those sites up to the selector each wrapping preserves the class (errors.As finds it at any depth); (R20.4) no connection-opening call (Dialer.DialContext, net.Dial on a non-UDP network, dialSackTCP) is reachable from the SYN traceroute in the module call graph, with the SACK path as positive control; (R20.5) every method the selector routes to SACK is rewritten to SYN by runE2eProbeOnce on every path before the per-run function is called. Whether real targets produce those situations needs a network and is not decided. The census is keyed by creating function and kind of cause with the reviewed number of sites, not by message text. (R20.6) The scan for the SACK-permitted option is not left early on a path that ends in the 'unsupported' verdict. (R20.7) The receive-path verdict is raised only for a plain ACK (SYN, FIN, RST clear) on the probed flow. A verdict whose chain carries a retryable wrapper is reported (the engines would skip it). E2e probes run with MinTTL = MaxTTL = the request's MaxTTL. Shares R10.7 (no return between a poll and the classification of its result): the capability verdict of the last poll reaches the selector. (R20.7) Conversely, no segment on the probed flow with SYN, FIN and RST clear is dismissed before its options reach the SACK scan.", runC20)
 	darwinRules["C20"] = runC20
 }
 
